@@ -20,7 +20,7 @@ Blank(p) ==
   /\ hist = <<>> /\ writer = Closed
   /\ pc = "down" /\ cur = [id |-> 0, sz |-> 0] /\ ri = 0 /\ after = "none"
   /\ used = FALSE /\ acked = {} /\ nextId = 1
-  /\ fault = NoFault /\ nFaults = 0 /\ nCrash = 0 /\ nRestart = 0 /\ nObst = 0 /\ nEnc = 0
+  /\ fault = NoFault /\ nFaults = 0 /\ nCrash = 0 /\ nRestart = 0 /\ nObst = 0 /\ nEnc = 0 /\ nOverlap = 0
   /\ ref = <<>> /\ rolls = 0 /\ res = "none"
 TInit == Blank(-1) /\ l = 1 /\ TLCSet(1, 0)
 TReset == /\ Is("reset")
@@ -29,7 +29,7 @@ TReset == /\ Is("reset")
           /\ hist' = <<>> /\ writer' = Closed
           /\ pc' = "down" /\ cur' = [id |-> 0, sz |-> 0] /\ ri' = 0 /\ after' = "none"
           /\ used' = FALSE /\ acked' = {} /\ nextId' = 1
-          /\ fault' = NoFault /\ nFaults' = 0 /\ nCrash' = 0 /\ nRestart' = 0 /\ nObst' = 0 /\ nEnc' = 0
+          /\ fault' = NoFault /\ nFaults' = 0 /\ nCrash' = 0 /\ nRestart' = 0 /\ nObst' = 0 /\ nEnc' = 0 /\ nOverlap' = 0
           /\ ref' = <<>> /\ rolls' = 0 /\ res' = "none"
 TBuild == Is("build") /\ Build /\ Same(Snap', Ev.disk)
 TStart == Is("start") /\ nextId = Ev.id /\ Start(Ev.sz)
